@@ -59,11 +59,16 @@ def run(ctx, res):
         "Decides the *no-panic* reading of C01 statically: the universe is every panic-capable operation in the MIR of "
         "the functions reachable (resolved calls + function references + closures + RTA-filtered class-hierarchy "
         "fallback) from parse_toplevel_items / parse_toplevel_items_from_span / parse_inline_expr_from_str / lex / "
-        "lex_between / check_toplevel_items(_in_env) / format. Each site is discharged by a dominance/dataflow rule or "
-        "by a reviewed row of tables/residue.json (exact, line-free key; the guards a row relies on are re-checked). "
-        "PARSE-PROGRESS and POP-UNPOP decide the parser's forward-progress assertions by idiom. Not decided: "
-        "termination of loops in general, stack depth on deeply nested input (recorded as a known finding), panics "
-        "inside dependencies that are not in the panicking-API table, allocation failure.")
+        "lex_between / check_toplevel_items(_in_env) / format / syntax_check::check (the `garden check [--fix]` path, "
+        "diagnostics rendering included). Each site is discharged by a dominance/dataflow rule or by a reviewed row of "
+        "tables/residue.json (exact, line-free key; the callee names, caller guards and guard fingerprints a row relies "
+        "on are re-checked). For termination of the parser: PARSE-PROGRESS classifies every forward-progress assertion "
+        "(G1 explicit index test = discharged, G2 invalid-result test, G3 unconditional peeked pop), LOOP-GUARD requires "
+        "every token loop that can reach parse_symbol to leave on an iteration without progress, POP-UNPOP pairs every "
+        "unpop with a pop of the same function except the two reviewed ones in parse_symbol, KEYWORD-GUARD keeps keywords "
+        "out of the struct-literal recursion. Thorough tier adds the NATIVE-LOOPS and RECURSION inventories. Not decided: "
+        "termination in general (no must-consume analysis of the recursive descent), stack depth on deeply nested input "
+        "(known finding, thorough tier), panics inside dependencies outside the panicking-API table, allocation failure.")
     res.assumptions += [
         "D-USIZE: unsigned add/mul of in-memory lengths/offsets does not overflow (needs > 2^63 bytes of input)",
         "reviewed residue rows are human arguments; each names the guard calls it relies on and those are re-checked",
